@@ -331,7 +331,17 @@ func runC02(s *kernel.Sim) {
 		}
 		used := map[*c02txn]bool{}
 		for i := 0; i < k; i++ {
-			switch c := tp.Weighted([]int{4, 3, 1, 1, 1, 1}); {
+			switch c := tp.Weighted([]int{4, 3, 1, 1, 1, 1, 1}); {
+			case c == 6 && len(open) > 0:
+				// the response is processed while the proxy reports the same transaction
+				// as failed: two releases of one slot that overlap
+				t := open[tp.Choose(len(open))]
+				if used[t] {
+					continue
+				}
+				used[t] = true
+				ops = append(ops, op{1, t, false}, op{2, t, false})
+				s.FaultFired("response_and_proxy_error_overlap")
 			case c == 0 || len(open) == 0:
 				ops = append(ops, op{0, newTxn(), withEarlyFlow && tp.Chance(1, 3)})
 			case c == 1 || c == 2:
